@@ -35,3 +35,8 @@ CASES += [
     dict(id='c18-description-word-dropped', prop='C18', file='src/library/format/text_block.cpp', expect='R6',
          old="         os << tiWord;\n         currLength = mIndentSpaces.length() + tiWord.length();", new="         currLength = mIndentSpaces.length() + tiWord.length();"),
 ]
+
+CASES += [
+    dict(id='c18-constraint-chained-to-check', prop='C18', file='src/library/prog_args/detail/argument_desc.cpp', expect='R7',
+         old="      if (mArguments[ i].mpArgObj->hasConstraint())", new="      else if (mArguments[ i].mpArgObj->hasConstraint())"),
+]
